@@ -313,7 +313,7 @@ func copyCompleteness(fn *ssa.Function, st *types.Struct, owner string) (missing
 				}
 			case *ssa.Call:
 				if b, isB := x.Call.Value.(*ssa.Builtin); isB && b.Name() == "copy" {
-					dst, src := x.Call.Args[0], x.Call.Args[1]
+					dst, src := rawArgs(x)[0], rawArgs(x)[1]
 					dstOK := passesField(dst, name) && rootOf(dst) != ssa.Value(recv)
 					if dstOK && fromRecvField(src, name) {
 						ok = true
@@ -328,10 +328,14 @@ func copyCompleteness(fn *ssa.Function, st *types.Struct, owner string) (missing
 	return missing
 }
 
-// paramOf is parameter #idx (receiver = 0) of fn. Named functions reach the rules only through
-// Program.Func, which refuses a function whose signature is not the confirmed one (core.checkSignature),
-// so the position is reliable; an index out of range is an unresolved anchor, not a violation.
+// paramOf is parameter #idx (receiver = 0) of fn, read by position: refused (unresolved anchor, not a
+// violation) when the parameter list of a named function is not the confirmed one (core.CheckParams).
 func paramOf(fn *ssa.Function, idx int) *ssa.Parameter {
+	if fn.Parent() == nil && idx > 0 {
+		core.CheckParams(fn)
+	} else if fn.Parent() == nil && fn.Signature.Recv() == nil {
+		core.CheckParams(fn)
+	}
 	if idx >= len(fn.Params) {
 		panic(core.AnchorError{Msg: fmt.Sprintf("%s has no parameter #%d", fn.String(), idx)})
 	}
@@ -369,4 +373,14 @@ func expandStores(sts []*ssa.Store) []assign {
 		exp(st, st.Val, st, 0)
 	}
 	return out
+}
+
+// rawArgs is Common().Args of a call (receiver included for static method calls), read by position: the
+// callee's parameter list must be the confirmed one (see core.CheckParams).
+func rawArgs(ci ssa.CallInstruction) []ssa.Value {
+	c := ci.Common()
+	if f := c.StaticCallee(); f != nil && !c.IsInvoke() {
+		core.CheckParams(f)
+	}
+	return c.Args
 }
